@@ -80,6 +80,7 @@ class ComplexWatson(_ProbabilisticModel):
 
         Returns:
         """
+        y = normalize_observation(y)
         result = np.einsum("...d,...d", y, self.mode[..., None, :].conj())
         result = result.real ** 2 + result.imag ** 2
         result *= self.concentration[..., None]
